@@ -1,6 +1,7 @@
 """Property -> harness modules.  A module may host conditions of several properties
 (the registry is filtered by property id)."""
 PROPS = {
+    'C20': ['mpgverif.harness.c20_decoy'],
     'C19': ['mpgverif.harness.c19_filter'],
     'C14': ['mpgverif.harness.c14_vep', 'mpgverif.harness.c14_reditools'],
     'C16': ['mpgverif.harness.c16_rmats'],
